@@ -10,7 +10,7 @@ theorem aFetch_cases (s : State) (now : Time) (k : Key) (t : Bool) (cur : Option
     (aFetch s now k t cur).1 = (C07.step s (.fetch now k)).1 ∧
     (match (aFetch s now k t cur).2 with
      | .upToDate => ∃ v ts d g, (C07.step s (.fetch now k)).2 = .hit v ts d g ∧ cur = some g
-     | .found v _ d g => ∃ ts0, (C07.step s (.fetch now k)).2 = .hit v ts0 d g
+     | .found v ts d g => ∃ ts0, (C07.step s (.fetch now k)).2 = .hit v ts0 d g ∧ ts = if t then backTrigs ts0 else []
      | .notFound => True) := by
   refine ⟨aFetch_fst s now k t cur, ?_⟩
   unfold aFetch
@@ -22,16 +22,17 @@ theorem aFetch_cases (s : State) (now : Time) (k : Key) (t : Bool) (cur : Option
   | stats a b => simp
 
 /-- where the answer of a fetch comes from -/
-inductive Origin (cl : Cluster) (c : Nat) (nowS : Time) (k : Key) (v : Val) (d : Time) (g : Gen) : Prop where
+inductive Origin (cl : Cluster) (c : Nat) (nowS : Time) (k : Key) (tags : Bool) (v : Val) (ts : List Key) (d : Time) (g : Gen) : Prop where
   /-- the responsible server sent the entry it holds -/
   | fresh (e : Entry) (h : home cl k = some e) (hv : e.val = v) (hd : e.deadline = d) (hg : e.gen = g) (hl : ¬ d < nowS)
+      (htr : tags = true → ∀ t ∈ backTrigs e.trigs, t ∈ ts)
   /-- the L1 entry was returned after the server confirmed its generation -/
   | confirmed (eL es : Entry) (hL : labs cl c k = some eL) (hv : eL.val = v) (hd : eL.deadline = d) (hg : eL.gen = g)
-      (hs : home cl k = some es) (hsg : es.gen = g) (hl : ¬ es.deadline < nowS)
+      (hs : home cl k = some es) (hsg : es.gen = g) (hl : ¬ es.deadline < nowS) (htr : tags = true → ts = eL.trigs)
 
 theorem fetchOp_spec {cl : Cluster} (hi : CInvs cl) (c : Nat) (nowC nowS : Time) (k : Key) (tags : Bool) :
     Effect cl (fetchOp absT cl c nowC nowS k tags).1 ∧
-    ∀ v ts d g, (fetchOp absT cl c nowC nowS k tags).2 = .hit v ts d g → Origin cl c nowS k v d g := by
+    ∀ v ts d g, (fetchOp absT cl c nowC nowS k tags).2 = .hit v ts d g → Origin cl c nowS k tags v ts d g := by
   unfold fetchOp
   simp only [absT]
   cases hs : cl.servers[shard cl.servers.length k]? with
@@ -57,10 +58,10 @@ theorem fetchOp_spec {cl : Cluster} (hi : CInvs cl) (c : Nat) (nowC nowS : Time)
         refine ⟨heff, ?_⟩
         intro v' ts' d' g' h
         simp only [Out.hit.injEq] at h
-        obtain ⟨rfl, _, rfl, rfl⟩ := h
-        obtain ⟨ts0, h0⟩ := e2
+        obtain ⟨rfl, rfl, rfl, rfl⟩ := h
+        obtain ⟨ts0, h0, hts⟩ := e2
         obtain ⟨ha, hl⟩ := fetch_hit_abs h0
-        exact .fresh _ (hhome.trans ha) rfl rfl rfl hl
+        exact .fresh _ (hhome.trans ha) rfl rfl rfl hl (by intro ht t hm; rw [hts, ht]; simpa using hm)
     | some l =>
       have hlinv := hi.l1 c l hl
       simp only
@@ -86,11 +87,11 @@ theorem fetchOp_spec {cl : Cluster} (hi : CInvs cl) (c : Nat) (nowC nowS : Time)
           refine ⟨effect_setServer (l1Only_setL1 hl hrel1) hs (srvRel_fetch hinv nowS k), ?_⟩
           intro v' ts' d' g' h
           simp only [Out.hit.injEq] at h
-          obtain ⟨rfl, _, rfl, rfl⟩ := h
+          obtain ⟨rfl, rfl, rfl, rfl⟩ := h
           obtain ⟨v0, ts0, d0, g0, h0, hc⟩ := e2
           cases hc
           obtain ⟨ha, hlive⟩ := fetch_hit_abs h0
-          exact .confirmed _ _ hLabs rfl rfl rfl (hhome.trans ha) rfl hlive
+          exact .confirmed _ _ hLabs rfl rfl rfl (hhome.trans ha) rfl hlive (by intro ht; simp [ht])
         | notFound =>
           simp only
           rw [setServer_setL1_comm]
@@ -101,14 +102,17 @@ theorem fetchOp_spec {cl : Cluster} (hi : CInvs cl) (c : Nat) (nowC nowS : Time)
         | found v ts d g =>
           simp only
           rw [setServer_setL1_comm]
-          obtain ⟨ts0, h0⟩ := e2
+          obtain ⟨ts0, h0, hts⟩ := e2
+          simp only [if_true] at hts
           obtain ⟨ha, hlive⟩ := fetch_hit_abs h0
-          refine ⟨effect_setServer (l1Only_setL1 hl (l1Rel_trans hrel1 (l1Rel_store hl1inv nowC k v _ d g _ (hhome.trans ha))))
+          refine ⟨effect_setServer (l1Only_setL1 hl (l1Rel_trans hrel1 (l1Rel_store hl1inv nowC k v _ d g _ (hhome.trans ha)
+            (by intro t hm; rw [hts]; exact List.mem_append_right _ hm))))
             hs (srvRel_fetch hinv nowS k), ?_⟩
           intro v' ts' d' g' h
           simp only [Out.hit.injEq] at h
-          obtain ⟨rfl, _, rfl, rfl⟩ := h
+          obtain ⟨rfl, rfl, rfl, rfl⟩ := h
           exact .fresh _ (hhome.trans ha) rfl rfl rfl hlive
+            (by intro ht t hm; rw [ht, hts]; simp only [if_true]; exact List.mem_append_right _ hm)
       | _ =>
         simp only
         obtain ⟨e1, e2⟩ := aFetch_cases s nowS k true none
@@ -128,13 +132,16 @@ theorem fetchOp_spec {cl : Cluster} (hi : CInvs cl) (c : Nat) (nowC nowS : Time)
         | found v ts d g =>
           simp only
           rw [setServer_setL1_comm]
-          obtain ⟨ts0, h0⟩ := e2
+          obtain ⟨ts0, h0, hts⟩ := e2
+          simp only [if_true] at hts
           obtain ⟨ha, hlive⟩ := fetch_hit_abs h0
-          refine ⟨effect_setServer (l1Only_setL1 hl (l1Rel_trans hrel1 (l1Rel_store hl1inv nowC k v _ d g _ (hhome.trans ha))))
+          refine ⟨effect_setServer (l1Only_setL1 hl (l1Rel_trans hrel1 (l1Rel_store hl1inv nowC k v _ d g _ (hhome.trans ha)
+            (by intro t hm; rw [hts]; exact hm))))
             hs (srvRel_fetch hinv nowS k), ?_⟩
           intro v' ts' d' g' h
           simp only [Out.hit.injEq] at h
-          obtain ⟨rfl, _, rfl, rfl⟩ := h
+          obtain ⟨rfl, rfl, rfl, rfl⟩ := h
           exact .fresh _ (hhome.trans ha) rfl rfl rfl hlive
+            (by intro ht t hm; rw [ht, hts]; simp only [if_true]; exact hm)
 
 end Cppcms.C10
